@@ -239,6 +239,24 @@ if ck.violations == 0 and exe is not None:
             found = True
             ck.violation("TSan harness crashed (rc=%d)" % rct, {"log_tail": outt[-3000:]})
 
+# ---- thread-pool mini scenarios under the shim: many schedules aimed at the lost-wake-up window (termination of the sort)
+pm_runs = 0
+if ck.violations == 0:
+    exe_pm, log_pm = ck.build_cpp("c04_poolmini", ["harness/C04/pool_mini.cpp"], None, REPO_SRCS,
+                                  ["-DUSE_SHIM", "-include", os.path.join(verif.VERIF, "harness", "sched", "verif_sched.hpp")], 600)
+    if exe_pm is None:
+        ck.violation("thread-pool mini harness does not compile", {"correspondence": "harness/C04/pool_mini.cpp", "log": log_pm[-2000:]}, no_input=True)
+    else:
+        npm = 6000 if ck.thorough() else 1500
+        first = 1 + (ck.seed % 1000) * 100000
+        rcp, outp = verif.sh([exe_pm, str(first), str(npm)], timeout=600)
+        pm_runs = sum(1 for l in outp.splitlines() if l.startswith("P "))
+        if rcp != 0:
+            found = True
+            last = [l for l in outp.splitlines() if l.startswith("S ")]
+            ck.violation("ThreadPool under the scheduler: a schedule ends in a deadlock / crash (lost wake-up: loop_until_empty() never returns, so the sort would not terminate) rc=%d" % rcp,
+                         {"case": last[-1] if last else None, "replay_cmd": "build harness/C04/pool_mini.cpp with the shim and run `pool_mini <seed> 1`", "log_tail": outp[-2500:]})
+
 # ---- the public front-ends (every overload x plain/lcp x with/without the memory argument), real threads
 fe_runs = 0
 if ck.violations == 0:
@@ -311,7 +329,8 @@ if pr is not None and not pr["ok"]:
     ck.proof_broken(found)
 
 ck.finish({
-    "evaluations": nruns + big_runs + tsan_runs + fe_runs,
+    "evaluations": nruns + big_runs + tsan_runs + fe_runs + pm_runs,
+    "pool_mini_schedules": pm_runs,
     "frontend_calls": fe_runs,
     "tsan_runs": tsan_runs,
     "distinct_nontrivial": len(nontrivial),
